@@ -23,6 +23,8 @@ ASSUMPTIONS = ["only the classes listed in the statement are demanded (an invert
 ANCHORS = {"weaver.py": [(65, 66), (112, 114), (311, 314), (356, 359), (413, 419), (980, 983)],
            "sorted_array_utils.py": [(311, 315), (543, 549)], "process.py": [(80, 87), (359, 360)],
            "match.py": [(92, 97), (125, 126)], "rfa.py": [(54, 55)], "datasets/_base.py": [(61, 64)]}
+FORMS_HARNESSES = "all"
+FORMS_WIDTH = {"in-every-state": 5, "in-large-states": 4, "function-level": 9, "function-level-long-series": 9}
 EXPLANATION = "every invalid class fired in every state of a bounded exhaustive exploration"
 
 
